@@ -62,5 +62,15 @@ if 'RES' in ob and 'C07' in ob:
     for t in ob['RES']['theorems']:
         if t not in ob['C07']['theorems']:
             ob['C07']['theorems'].append(t)
+# cross-property compositions (Properties/Compose.lean): each theorem is audited with the checks of the properties it composes
+if 'X' in ob:
+    for pid, thms in ob['X'].get('attach', {}).items():
+        if pid in ob:
+            for m in ob['X']['modules']:
+                if m not in ob[pid]['modules']:
+                    ob[pid]['modules'].append(m)
+            for t in thms:
+                if t not in ob[pid]['theorems']:
+                    ob[pid]['theorems'].append(t)
 json.dump(ob, open(V + '/lean/obligations.json', 'w'), indent=1)
 print('modules', len(mods), 'handlers', handlers, 'obligations', sorted(ob))
